@@ -186,7 +186,12 @@ func nativeReplay(e *sym.Engine, spec *Spec, pkg string, tapes []string, tries i
 // path models become tapes; each tape is run (a) by the engine in concrete mode
 // and (b) natively; failures, reach marks and observations must be identical.
 func validateEncoder(rr *runResult, n int) (int, []string, []string) {
-	tapes := rr.valTapes
+	var tapes []*sym.Tape
+	for _, tp := range rr.valTapes {
+		if !contains(rr.spec.EngineOnly, tp.Harness) {
+			tapes = append(tapes, tp)
+		}
+	}
 	if len(tapes) == 0 {
 		return 0, []string{"no tapes sampled"}, nil
 	}
